@@ -111,6 +111,38 @@ Fixpoint api_resume_loop (render : view -> bytes * bool) (rs : rstate) (pending 
 Definition api_resume (fmt tfmt : bytes) (pieces : list bytes) : bytes :=
   join sp (api_resume_loop (the_render fmt tfmt) rs_init [] 0 pieces).
 
+(** mserialize::visit on an arbitrary tag and arbitrary bytes: callbacks (plain visitor) and text (ToStringVisitor) *)
+Definition vcb_text (c : cb) : bytes :=
+  match c with
+  | CArith l raw => str "A" ++ [l] ++ dec raw
+  | CSeqBegin n t => str "[" ++ dec n ++ str ":" ++ hex t
+  | CSeqEnd => str "]"
+  | CSeqChars cs => str "C" ++ hex cs
+  | CTupleBegin t => str "(" ++ hex t
+  | CTupleEnd => str ")"
+  | CVariantBegin d t => str "<" ++ dec d ++ str ":" ++ hex t
+  | CVariantEnd => str ">"
+  | CNull => str "0"
+  | CEnum n e u h => str "E" ++ hex n ++ str ":" ++ hex e ++ str ":" ++ [u] ++ str ":" ++ hex h
+  | CStructBegin n t => str "{" ++ hex n ++ str ":" ++ hex t
+  | CStructEnd => str "}"
+  | CFieldBegin n t => str "F" ++ hex n ++ str ":" ++ hex t
+  | CFieldEnd => str "f"
+  | CRepeatBegin n t => str "R" ++ dec n
+  | CRepeatEnd n t => str "r" ++ dec n
+  | CSpecial t => str "S" ++ hex t
+  end.
+Definition no_special0 (n t i : bytes) : option (option (bytes * bytes)) := None.
+Definition api_visit (tg bs : bytes) : bytes :=
+  (match visit false no_special0 2048 tg tg bs with
+   | VOk (cbs, rest) => str "ok " ++ join (str ",") (map vcb_text cbs) ++ str ";" ++ dec (lenN rest)
+   | VErr _ partial => str "err " ++ join (str ",") (map vcb_text partial)
+   end) ++
+  (match visit true no_special0 2048 tg tg bs with
+   | VOk (cbs, _) => str " ok " ++ hex (snd (tostring float_stub ts_init cbs))
+   | VErr _ partial => str " err " ++ hex (snd (tostring float_stub ts_init partial))
+   end).
+
 Definition nth_arg (args : list bytes) (i : nat) : bytes := nth i args [].
 
 Definition api (mode : bytes) (args : list bytes) : bytes :=
@@ -120,6 +152,7 @@ Definition api (mode : bytes) (args : list bytes) : bytes :=
   else if beq_bytes mode (str "tos") then api_tos (nth_arg args 0) (nth_arg args 1) (skipn 2 args)
   else if beq_bytes mode (str "filter") then api_filter true (nth_arg args 0) (nth_arg args 1) (skipn 2 args)
   else if beq_bytes mode (str "filter_noerase") then api_filter false (nth_arg args 0) (nth_arg args 1) (skipn 2 args)
+  else if beq_bytes mode (str "visit") then api_visit (nth_arg args 0) (nth_arg args 1)
   else if beq_bytes mode (str "resume") then api_resume (nth_arg args 0) (nth_arg args 1) (skipn 2 args)
   else if beq_bytes mode (str "events") then api_events (nth_arg args 0)
   else if beq_bytes mode (str "segmap") then
